@@ -287,6 +287,60 @@ def multi_use_layer():
     return out
 
 
+def rename_chain_layer():
+    """rename lists without ONLY whose clauses depend on each other: the local name of one clause is the
+    name another clause of the same statement renames away -- chains (x1 => x2, old => x1), swaps and
+    3-rotations, both clause orders, for types, procedures and variables (and all at once).  The renames of
+    one statement are simultaneous (Fortran 2018 14.2.2): every local name denotes the entity its clause
+    names.  (a) module mb uses mg that way and is a facade: mc uses mb, the program uses mc and references
+    every name; (b) the same statement in a module procedure / an internal procedure of a module without
+    USE statements of its own"""
+    kinds = [("t", "type"), ("p", "proc"), ("v", "var")]
+    mg = mod("mg", "public", [(f"{k}{i}", kind, "public") for k, kind in kinds for i in (1, 2, 3)]
+             + [("i1", "abs", "public"), ("i2", "abs", "public")])
+
+    def patterns(k):
+        a, b, c = f"{k}1", f"{k}2", f"{k}3"
+        return {
+            "chain": [(a, b), (f"{k}old", a)],                 # x1 => x2, xold => x1
+            "chain_rev": [(f"{k}old", a), (a, b)],
+            "chain3": [(a, b), (b, c), (f"{k}old", a)],
+            "swap": [(a, b), (b, a)],
+            "swap_rev": [(b, a), (a, b)],
+            "rot": [(a, b), (b, c), (c, a)],
+            "rot_other_order": [(c, a), (a, b), (b, c)],
+        }
+    out = []
+    pnames = list(patterns("t"))
+    for pname in pnames:
+        groups = {k: patterns(k)[pname] for k, _ in kinds}
+        groups["all"] = [cl for k, _ in kinds for cl in patterns(k)[pname]] + [("i1", "i2"), ("i2", "i1")]
+        for gname, clauses in groups.items():
+            us = [use("mg", None, clauses, prefix="non_intrinsic" if gname == "p" else "")]
+            locals_ = [l for l, _ in clauses]
+            everything = sorted({f"{k}{i}" for k, _ in kinds for i in (1, 2, 3)} | set(locals_) | {"i1", "i2"})
+            tnames = [n for n in everything if n.startswith("t")]
+            calls = [n for n in everything if n.startswith("p")]
+            inames = [n for n in everything if n.startswith("i")]
+            if gname in ("all", "t") or pname in ("chain", "swap", "rot"):
+                mb = mod("mb", "public", [("vb1", "var", "public")], [], us)
+                mc = mod("mc", "public", [], [], [use("mb")])
+                prog = mod("main", unit="program", uses=[use("mc")], calls=calls)
+                prog["decls"] = [ref_var(f"vz{j}", "type", n) for j, n in enumerate(tnames)] + \
+                                [ref_var(f"vy{j}", "procptr", n) for j, n in enumerate(inames)]
+                out.append((f"renchain:{pname}:{gname}:facade", [mg, mb, mc, prog]))
+            if gname == "all":
+                refs = [("type", n) for n in tnames] + [("procptr", n) for n in inames] + [("call", n) for n in calls]
+                for form in ("modproc", "internal"):
+                    mm = mod("mm", "public")
+                    if form == "modproc":
+                        mm["decls"].append(nested_decl(nd("p", "routine", us, refs), "proc"))
+                    else:
+                        mm["decls"].append(nested_decl(nd("p", "routine", [], [], [nd("q", "routine", us, refs)]), "proc"))
+                    out.append((f"renchain:{pname}:{form}", [mm, mg]))
+    return out
+
+
 def shadow_layer():
     """a nested scope whose USE brings in names that its host also has -- declared in the host module, or
     imported by the host from a third module -- plainly, through ONLY, and through ONLY with a rename whose
@@ -543,6 +597,9 @@ def run(chk):
         R.add(label, units, file_orders(rng, units, 1 if quick else 3))
     # 2c. several USE statements of one module in one scope
     for label, units in multi_use_layer():
+        R.add(label, units, file_orders(rng, units, 1 if quick else 3))
+    # 2c'. rename lists whose clauses depend on each other (chains, swaps, rotations)
+    for label, units in rename_chain_layer():
         R.add(label, units, file_orders(rng, units, 1 if quick else 3))
     # 2d. project modules named like intrinsic / extra modules
     special = special_layer()
